@@ -481,6 +481,34 @@ def main(argv):
             else:
                 real_violations.append(f)
 
+    # units whose text could not be re-verified (lost anchor / rejected by the verifier): the proof is gone, so
+    # fall back to the attached concrete inputs; a reproduced failure on the real code is a violation with its input
+    for rec in recs:
+        if rec["status"] in ("anchor-lost", "rejected", "verifier-error", "rlimit"):
+            try:
+                import witness
+            except ImportError:
+                break
+            for c in witness.load_candidates():
+                if c.get("property") and pid not in c["property"]:
+                    continue
+                if not re.match(c["for"].split("/")[0] + "$", rec["unit"]) and not any(re.match(alt + "$", rec["unit"]) for alt in c["for"].split("/")[0].split("|")):
+                    continue
+                rep, obs = witness.run_candidate(c)
+                if rep:
+                    n = len(real_violations)
+                    rp = os.path.join(REPLAY, "%s-u%d.json" % (pid, n))
+                    f = {"obligation": "%s/<unit not re-verifiable: %s>" % (rec["unit"], rec["status"]), "kind": "unverifiable+witness",
+                         "item": None, "src": None, "clause": (rec.get("detail") or "; ".join(rec["rejected"]))[:300], "unit": rec["unit"],
+                         "message": "the unit could not be re-verified and a concrete input fails on the real code",
+                         "witness": {"candidate": {k: v for k, v in c.items() if not k.startswith("_")}, "observation": obs,
+                                     "how": "ironplcc built from /repo working tree"}, "replay": rp}
+                    json.dump({"property": pid, "obligation": f["obligation"], "kind": f["kind"], "function": None, "source": None,
+                               "clause": f["clause"], "verifier": "verus", "verifier_message": f["message"], "verifier_output": rec.get("detail", ""),
+                               "witness": f["witness"], "note": "replay with ./check %s --replay %s" % (pid, rp)}, open(rp, "w"), indent=1)
+                    real_violations.append(f)
+                    break
+
     failed_obl = len({f["obligation"] for f in real_violations}) + len({f["obligation"] for f in knownhits})
     discharged = max(0, n_obl - failed_obl) if not undecided else 0
     wall = time.time() - t0
